@@ -374,3 +374,40 @@ func verifJSONFormat(n int) {
 
 func VerifC17_JSONFormat4()  { verifJSONFormat(4) }
 func VerifC17T_JSONFormat6() { verifJSONFormat(6) }
+
+// ---- format "regexp": the verdict is that of regexp.Compile, however often asked ----
+
+func VerifC17_RegexpFormatStable() {
+	pats := []string{"(", "[a", "a+", "^x$", "*", "a{2,1}", ""}
+	for i, n := 0, nondetChoice("history", 3); i < n; i++ {
+		ValidateFormat("h", pats[nondetChoice("hist-pattern", len(pats))], FormatRegexp)
+	}
+	p := pats[nondetChoice("pattern", len(pats))]
+	got := ValidateFormat("v", p, FormatRegexp) == nil
+	_, err := regexp.Compile(p)
+	verifAssert("regexp-format-iff-it-compiles", got == (err == nil))
+	verifAssert("regexp-format-verdict-stable", (ValidateFormat("v", p, FormatRegexp) == nil) == got)
+}
+
+// ---- format "uuid": goa's own rule on top of the parser is the RFC 4122 variant ----
+
+func VerifC17_UUIDVariant() {
+	isHex := func(c byte) bool { return c >= '0' && c <= '9' || c|0x20 >= 'a' && c|0x20 <= 'f' }
+	x, v := nondetString("variant-digit", 1), nondetString("version-digit", 1)
+	forms := []string{"%s", "{%s}", "urn:uuid:%s"}
+	body := "6ba7b810-9dad-" + v + "1d1-" + x + "0b4-00c04fd430c8"
+	var s string
+	switch nondetChoice("spelling", len(forms)) {
+	case 0:
+		s = body
+	case 1:
+		s = "{" + body + "}"
+	default:
+		s = "urn:uuid:" + body
+	}
+	got := ValidateFormat("v", s, FormatUUID) == nil
+	// RFC 4122 variant: the two most significant bits of octet 8 are 10
+	rfc := x[0] == '8' || x[0] == '9' || x[0]|0x20 == 'a' || x[0]|0x20 == 'b'
+	verifObserve("got", got)
+	verifAssert("uuid-format-iff-hex-and-rfc4122-variant", got == (isHex(x[0]) && isHex(v[0]) && rfc))
+}
